@@ -99,6 +99,32 @@ type Square struct{ S string }
 func (Circle) isShape() {}
 func (Square) isShape() {}
 
+// a union member with reference-typed and omitempty fields (whatever a reused slot keeps shows up in the next value)
+type Blob struct {
+	Attrs map[string]int
+	Scale *int
+	Note  string `refmt:",omitempty"`
+}
+
+func (Blob) isShape() {}
+
+// byte slices and byte arrays side by side (one token carries them all, one after the other)
+type PaySum struct {
+	Payload []byte
+	Sum     [4]byte
+	Tail    MyBytes
+	Sum2    [2]byte
+}
+
+// narrow integer fields; atlas 3 maps them by hand and DECLARES wider types in its entries (the builder goes by the
+// real field types)
+type Narrow struct {
+	A int32
+	B uint8
+	C int16
+	D uint16
+}
+
 type HasShape struct {
 	Name string
 	S    Shape
@@ -448,6 +474,20 @@ func trEntry(live interface{}, id int, tag int) *atlas.AtlasEntry {
 	panic("no transform")
 }
 
+// the key order an entry was CONFIGURED with by this harness (the entry itself is not asked: a builder that hands out
+// shared morphism values would answer with whatever was configured last)
+var entryMode = map[*atlas.AtlasEntry]atlas.KeySortMode{}
+
+func mmEntry(live interface{}, tag int, mode atlas.KeySortMode) *atlas.AtlasEntry {
+	b := atlas.BuildEntry(live)
+	if tag >= 0 {
+		b = b.UseTag(tag)
+	}
+	e := b.MapMorphism().SetKeySortMode(mode).Complete()
+	entryMode[e] = mode
+	return e
+}
+
 var trFuncID = map[reflect.Type]int{}
 
 // the transform pair an entry was built with (one Go type may be mapped through different pairs by different atlases)
@@ -467,27 +507,27 @@ func buildAtlases() {
 	trFuncID[reflect.TypeOf(TrW{})] = 8
 	trFuncID[reflect.TypeOf(TrN{})] = 9
 	trFuncID[reflect.TypeOf(Digest{})] = 10
-	structs := []interface{}{Inner{}, WithPtr{}, Emb{}, Rec{}, Tagged{}, OmitAll{}, Nums{}, HasShape{}, HasNoAtlas{}, MapKeyed{}, TwoMaps{}, TwoTr{}, Wide{}, Fold{}, Circle{}, Square{}}
+	structs := []interface{}{Inner{}, WithPtr{}, Emb{}, Rec{}, Tagged{}, OmitAll{}, Nums{}, HasShape{}, HasNoAtlas{}, MapKeyed{}, TwoMaps{}, TwoTr{}, Wide{}, Fold{}, PaySum{}, Narrow{}, Blob{}, Circle{}, Square{}}
 	mk := func(id int, sort atlas.KeySortMode, mode atlas.KeySortMode, tags bool, extra ...*atlas.AtlasEntry) {
 		var es []*atlas.AtlasEntry
 		{
-			kb := atlas.BuildEntry(KeyedMap{})
+			kt := -1
 			if tags {
-				kb = kb.UseTag(31)
+				kt = 31
 			}
-			extra = append(append([]*atlas.AtlasEntry{}, extra...), kb.MapMorphism().SetKeySortMode(sort).Complete())
+			extra = append(append([]*atlas.AtlasEntry{}, extra...), mmEntry(KeyedMap{}, kt, sort))
 		}
 		tag := 100
 		for _, s := range structs {
 			b := atlas.BuildEntry(s)
-			if tags && (reflect.TypeOf(s) == reflect.TypeOf(Inner{}) || reflect.TypeOf(s) == reflect.TypeOf(Circle{}) || reflect.TypeOf(s) == reflect.TypeOf(TwoMaps{})) {
+			if tags && (reflect.TypeOf(s) == reflect.TypeOf(Inner{}) || reflect.TypeOf(s) == reflect.TypeOf(Circle{}) || reflect.TypeOf(s) == reflect.TypeOf(TwoMaps{}) || reflect.TypeOf(s) == reflect.TypeOf(Blob{})) {
 				b = b.UseTag(tag)
 				tag += 1000
 			}
 			es = append(es, b.StructMap().AutogenerateWithSortingScheme(mode).Complete())
 		}
-		circle, square := es[len(es)-2], es[len(es)-1]
-		es = append(es, atlas.BuildEntry((*Shape)(nil)).KeyedUnion().Of(map[string]*atlas.AtlasEntry{"circle": circle, "sq": square}))
+		blob, circle, square := es[len(es)-3], es[len(es)-2], es[len(es)-1]
+		es = append(es, atlas.BuildEntry((*Shape)(nil)).KeyedUnion().Of(map[string]*atlas.AtlasEntry{"circle": circle, "sq": square, "Tblob": blob}))
 		tt, sqTag, optTag, wTag, nTag, dTag := -1, -1, -1, -1, -1, -1
 		if tags {
 			tt, sqTag, optTag, wTag, nTag, dTag = 23, 25, 27, 28, 29, 30
@@ -498,7 +538,10 @@ func buildAtlases() {
 		}
 		es = append(es, trEntry(KeyStruct{}, ksTr, -1), trEntry(TrNum(0), 2, tt), trEntry(TrBytes{}, 3, tt+1), trEntry(TrComp{}, 4, -1), trEntry(TrSq{}, 5, sqTag), trEntry(TrMap{}, 6, -1), trEntry(TrOpt{}, 7, optTag), trEntry(TrW{}, 8, wTag), trEntry(TrN{}, 9, nTag), trEntry(Digest{}, 10, dTag))
 		es = append(es, extra...)
-		a := atlas.MustBuild(es...).WithMapMorphism(atlas.MapMorphism{KeySortMode: sort})
+		a := atlas.MustBuild(es...)
+		if id != 6 {
+			a = a.WithMapMorphism(atlas.MapMorphism{KeySortMode: sort})
+		}
 		atlases = append(atlases, &atlasCfg{id: id, atl: a, entries: es, nReg: len(es), sort: sort})
 	}
 	// 0: no entries at all
@@ -511,18 +554,26 @@ func buildAtlases() {
 		AddField("Inner.Y", atlas.StructMapEntry{SerialName: "why", OmitEmpty: true}).
 		IgnoreKey("legacy").
 		AddField("X", atlas.StructMapEntry{SerialName: "ex"}).Complete()
-	mm := atlas.BuildEntry(StrMap{}).MapMorphism().SetKeySortMode(atlas.KeySortMode_RFC7049).Complete()
+	mm := mmEntry(StrMap{}, -1, atlas.KeySortMode_RFC7049)
 	// a per-type morphism on the unnamed type untyped maps have
-	mmU := atlas.BuildEntry(map[string]interface{}{}).MapMorphism().SetKeySortMode(atlas.KeySortMode_RFC7049).Complete()
+	mmU := mmEntry(map[string]interface{}{}, -1, atlas.KeySortMode_RFC7049)
 	{
 		save := structs
-		structs = []interface{}{Inner{}, WithPtr{}, Rec{}, Tagged{}, OmitAll{}, Nums{}, HasShape{}, HasNoAtlas{}, MapKeyed{}, TwoMaps{}, TwoTr{}, Wide{}, Fold{}, Circle{}, Square{}}
-		mk(3, atlas.KeySortMode_Strings, atlas.KeySortMode_Strings, true, embEntry, mm, mmU)
+		structs = []interface{}{Inner{}, WithPtr{}, Rec{}, Tagged{}, OmitAll{}, Nums{}, HasShape{}, HasNoAtlas{}, MapKeyed{}, TwoMaps{}, TwoTr{}, Wide{}, Fold{}, PaySum{}, Blob{}, Circle{}, Square{}}
+		narrowEntry := atlas.BuildEntry(Narrow{}).StructMap().
+			AddField("A", atlas.StructMapEntry{SerialName: "a", Type: reflect.TypeOf(int64(0))}).
+			AddField("B", atlas.StructMapEntry{SerialName: "b", Type: reflect.TypeOf(uint64(0))}).
+			AddField("C", atlas.StructMapEntry{SerialName: "c", Type: reflect.TypeOf(int(0))}).
+			AddField("D", atlas.StructMapEntry{SerialName: "d", Type: reflect.TypeOf(uint(0))}).Complete()
+		mk(3, atlas.KeySortMode_Strings, atlas.KeySortMode_Strings, true, embEntry, mm, mmU, narrowEntry)
 		structs = save
 	}
 	// 4: like 1 plus an entry for the struct reached through an embedded pointer
 	ep := atlas.BuildEntry(EmbPtr{}).StructMap().Autogenerate().Complete()
 	mk(4, atlas.KeySortMode_Default, atlas.KeySortMode_Default, false, ep)
+	// 6: built WITHOUT WithMapMorphism (the atlas default is whatever Build provides); one named map type with its own
+	//    length-first order next to plain maps
+	mk(6, atlas.KeySortMode_Default, atlas.KeySortMode_Default, false, mmEntry(StrMap{}, -1, atlas.KeySortMode_RFC7049))
 	// 5: DERIVED from atlas 1 (which stays in use) with another default map order: same entries, independent configuration
 	for _, a1 := range atlases {
 		if a1.id == 1 {
@@ -592,6 +643,9 @@ func describeEntry(e *atlas.AtlasEntry, pool []*atlas.AtlasEntry) string {
 		}
 		return head + "un=" + strings.Join(ms, ";")
 	case e.MapMorphism != nil:
+		if m, ok := entryMode[e]; ok {
+			return head + "mm=" + sortName(m)
+		}
 		return head + "mm=" + sortName(e.MapMorphism.KeySortMode)
 	}
 	return head + "invalid"
@@ -599,8 +653,10 @@ func describeEntry(e *atlas.AtlasEntry, pool []*atlas.AtlasEntry) string {
 
 // one atlas per shape family: autogenerated entries for every struct type of the family
 func buildShapeAtlases() {
-	if len(atlases) > 6 {
-		return
+	for _, a := range atlases {
+		if a.id >= 100 {
+			return
+		}
 	}
 	for k, fam := range shapeFamilies {
 		var es []*atlas.AtlasEntry
@@ -626,7 +682,7 @@ func rootTypes() []reflect.Type {
 		float32(0), float64(0), []byte{}, MyInt(0), MyI8(0), MyI16(0), MyU16(0), MyU32(0), MyStr(""), MyBool(false), MyF32(0), MyBytes{},
 		Arr4{}, Arr0{}, [3]byte{}, []MyByte{}, [2]MyByte{},
 		Inner{}, WithPtr{}, Emb{}, EmbPtr{}, Rec{}, Tagged{}, OmitAll{}, Nums{}, KeyStruct{}, TrNum(0), TrBytes{}, TrComp{}, HasShape{},
-		NoAtlas{}, HasNoAtlas{}, MapKeyed{}, MapInt{}, StrMap{}, Circle{}, Square{}, TwoMaps{}, TrSq{}, []TrSq{}, map[string]TrSq{}, TrMap{}, []TrMap{}, map[string]TrMap{}, [2]TrMap{}, TrOpt{}, []TrOpt{}, TwoTr{}, Wide{}, TrW{}, TrN{}, []TrW{}, []TrN{}, Digest{}, []Digest{}, map[string]Digest{}, KeyedMap{}, []KeyedMap{}, Fold{}, []Fold{}, map[string]NoAtlas{}, map[string][]NoAtlas{}, []map[string]int{}, (*int64)(nil), []int64{}, [2][]byte{}, [1]*[4]byte{}, [2]interface{}{}, [2]map[string]int{}, [2][]int{},
+		NoAtlas{}, HasNoAtlas{}, MapKeyed{}, MapInt{}, StrMap{}, Circle{}, Square{}, TwoMaps{}, TrSq{}, []TrSq{}, map[string]TrSq{}, TrMap{}, []TrMap{}, map[string]TrMap{}, [2]TrMap{}, TrOpt{}, []TrOpt{}, TwoTr{}, Wide{}, TrW{}, TrN{}, []TrW{}, []TrN{}, Digest{}, []Digest{}, map[string]Digest{}, KeyedMap{}, []KeyedMap{}, Fold{}, []Fold{}, Blob{}, PaySum{}, []PaySum{}, Narrow{}, []uint64{}, map[string]Shape{}, [3]Shape{}, (*Circle)(nil), map[string]NoAtlas{}, map[string][]NoAtlas{}, []map[string]int{}, (*int64)(nil), []int64{}, [2][]byte{}, [1]*[4]byte{}, [2]interface{}{}, [2]map[string]int{}, [2][]int{},
 		[]int{}, []string{}, [2]string{}, [0]int{}, [][]int{}, []*int{}, []interface{}{}, map[string]int{}, map[string]interface{}{},
 		map[string][]byte{}, map[string]map[string]string{}, map[KeyStruct]string{}, map[TrNum]int{}, map[int]int{}, map[MyStr]int{},
 		(*int)(nil), (**string)(nil), (*[]int)(nil), (*Inner)(nil), (***Inner)(nil), (*interface{})(nil), []*Inner{}, map[string]*Rec{},
